@@ -45,7 +45,7 @@ def gen_chain_data(kind, seed=0):
         "ry3": ((0, 1, 0), (1.5, 0.1, 1.2)), "rz4": ((0, 0, 1), (2.0, 0, 1.0)), "rx5": ((1, 0, 0), (2.2, 0.3, 0.8)), "ry6": ((0, 1, 0), (2.5, 0, 0.7)),
     }
     seq = {"1R": ["rg"], "2RP": ["rz0", "px"], "3R": ["rz0", "ry1", "rg"], "7R": ["rz0", "ry1", "rx2", "ry3", "rz4", "rx5", "ry6"],
-           "3S": ["rz0", "seed", "rx2"], "3RPR": ["ry1", "pg", "rx2"]}[kind]
+           "3S": ["rz0", "seed", "rx2"], "3RPR": ["ry1", "pg", "rx2"], "3N": ["rz0", "ry1", "rg"]}[kind]
     n = len(seq)
     S = np.zeros((6, n))
     homes = np.zeros((3, n))
@@ -70,6 +70,8 @@ def gen_chain_data(kind, seed=0):
     M = se3.T_from([0.2, -0.1, 0.3], prev + np.array([0.4, 0.1, 0.2]))
     lo = -np.array([2.0, 1.5, 2.5, 2.2, 3.0, 1.0, 2.8][:n])
     hi = np.array([2.5, 1.2, 2.0, 3.0, 2.6, 1.4, 2.9][:n])
+    if kind == "3N":            # joint ranges that do not contain 0 (an elbow that cannot straighten, a wrist offset)
+        lo, hi = np.array([-2.0, 0.35, -2.4]), np.array([2.5, 1.4, -0.3])
     unreach = {"2RP": (0, 0, 50.0), "3RPR": (50.0, 0, 0)}.get(kind, (50.0, 0, 0))
     return {"S": S, "M": M, "homes": homes, "axes": axes, "lo": lo, "hi": hi, "unreach": unreach}
 
@@ -164,7 +166,7 @@ def build(name, seed=0):
     return arm, ref
 
 
-QUICK_ARMS = ["6R@I", "6R@B0", "urdf:ur5@I", "urdf:irb2400@B1", "gen:2RP@B2", "gen:3R@I"]
+QUICK_ARMS = ["6R@I", "6R@B0", "urdf:ur5@I", "urdf:irb2400@B1", "gen:2RP@B2", "gen:3R@I", "gen:3N@B1"]
 ALL_ARMS = QUICK_ARMS + ["urdf:puma560@I", "urdf:ur10d@B0", "urdf:ur5d@I", "gen:1R@B1", "gen:7R@B0", "gen:3RPR@I", "gen:3S@BS", "gen:7R@I"]
 
 
